@@ -142,6 +142,50 @@ def classify(res):
     return {"status": "fail", "failures": failures, "rlimit": rlimit_hit, "verified": vr.get("verified", 0), "errors": vr.get("errors", 0)}
 
 
+def close_props(reports, linemap, meta, text):
+    """Verification is modular: a property that counts a function also depends on the contracts of the functions it calls.  The
+    function-level `props` of every extracted function is therefore closed under 'is called by' inside the unit (labelled clauses
+    keep their own lists).  The own list is kept as props_own."""
+    fn_kinds = ("fn", "closure", "block", "tail")
+    default = meta.get("default-props", [])
+    lines = text.split("\n")
+    body = {}
+    for ln, e in linemap.items():
+        i = e.get("item")
+        if i is None: continue
+        k = int(ln)
+        if 1 <= k <= len(lines): body.setdefault(i, []).append(lines[k - 1])
+    names = {}
+    for i, r in enumerate(reports):
+        if r["kind"] in fn_kinds:
+            nm = r["name"]
+            m = re.search(r"\bfn\s+(\w+)", r.get("locator", "")) if r["kind"] != "fn" else None
+            names[i] = nm
+            r["props_own"] = list(r.get("props") or default)
+    # lifted closures / tails are emitted under the name given in their `sig`: find it in the emitted text
+    for i in list(names):
+        if reports[i]["kind"] != "fn":
+            m = re.search(r"\bfn\s+(\w+)\s*[<(]", "\n".join(body.get(i, [])))
+            if m: names[i] = m.group(1)
+    calls = {i: set() for i in names}
+    for i in names:
+        txt = re.sub(r"//[^\n]*", "", "\n".join(body.get(i, [])))
+        for j, nm in names.items():
+            if j != i and re.search(r"(?<![\w])%s\s*(::<[^>]*>)?\(" % re.escape(nm), txt): calls[i].add(j)
+    cur = {i: set(reports[i]["props_own"]) for i in names}
+    changed = True
+    while changed:
+        changed = False
+        for i in names:
+            for j in calls[i]:
+                if not cur[i] <= cur[j]:
+                    cur[j] |= cur[i]; changed = True
+    for i in names:
+        order = sorted(cur[i])
+        reports[i]["props"] = order
+        reports[i]["props_inherited"] = sorted(cur[i] - set(reports[i]["props_own"]))
+
+
 def unit_result(unit, tier, vacuity=False, use_cache=True):
     """assemble + verify one unit; returns a dict (never raises)"""
     global _VV
@@ -186,6 +230,7 @@ def unit_result(unit, tier, vacuity=False, use_cache=True):
             fb += m.get("function-breakdown", [])
     except Exception:
         pass
+    close_props(reports, linemap, meta, text)
     return {"unit": unit, "status": cl["status"], "reason": cl.get("reason"), "failures": cl.get("failures", []),
             "compile_errors": cl.get("compile_errors"), "verified": cl.get("verified"),
             "reports": reports, "linemap": linemap, "meta": meta, "path": path, "cached": cached, "key": key,
@@ -316,6 +361,8 @@ def obligations_for(ur, prop):
         sp = ch[1]
         if sp.spec is None and not sp.loops: continue
         iprops = sp.props or default_props
+        for r in ur["reports"]:
+            if r.get("locator") == sp.locator and r.get("props"): iprops = r["props"]
         n = 0
         groups = []
         if sp.spec: groups.append(sp.spec)
